@@ -34,6 +34,23 @@ def _sync(title, oracle, ref):
 
 
 CHECKS.update({
+    "C10": dict(
+        category="exploration",
+        technique="runtime monitoring: reference-model monitors (dictionary for the per-thread store, set model + liveness marks for the key allocator, free-list walk at quiescence) on the real code, targeted delays in the allocator's CAS windows, ASan/UBSan, library-level migration probes",
+        text=("Unit harness includes src/myth_tls_func.h: random set/get over all 1024 indices in six subset shapes (every lazily allocated level, node-pool overflow into malloc, "
+              "out-of-range keys) against a dictionary; create/delete sequences against a set model up to exhaustion at 1024; 2-8 OS threads creating/deleting concurrently with "
+              "an atomic liveness mark per key and a structural walk of the free list at quiescence. Library level: threads store tag-derived values under key subsets of "
+              "1024 live keys, force a migration with steal_first yields and re-read; fresh threads, never-set keys and same-leaf neighbours must read NULL."),
+        design_ref="DESIGN.md section 5 C10",
+    ),
+    "C11": dict(
+        category="exploration",
+        technique="runtime monitoring: per-(thread,key) destructor call log from 1024 distinct trampolines compared with a model after every batch of thread terminations (return / myth_exit / cancel), ASan for reads outside the key table",
+        text=("All 1024 keys live, a random share with destructors (one trampoline per index so the key identity of every call is known); threads store values that encode (thread, key) "
+              "under eight subset shapes including those that leave earlier tree branches empty and partially populated key tables, overwrite/clear some, and end in all three ways; "
+              "calls must equal the model exactly (1 iff live key with destructor and non-NULL value), a value decoding to another key or a key without destructor is an immediate violation."),
+        design_ref="DESIGN.md section 5 C11",
+    ),
     "C03": dict(
         category="exploration",
         technique="runtime monitoring: pure-assembly register probe around every kind of switching call + stack pattern arrays + rsp alignment assertions at thread entry and in every switch callback, -O0 and -O2 builds, delay injection",
